@@ -19,7 +19,13 @@ def norm(pid, c):
     mod = importlib.import_module("vlib.props." + pid)
     text = (c.get("level_text") or "").strip()
     note = (c.get("level_note") or "").strip()
-    if len(text) < 60:
+    if len(text) < 400 and len(note) > 600 and not text.lower().startswith("proof:"):
+        # a short qualifier in level_text, the real description in level_note: combine them
+        qual = text
+        head = "Proof (partial)" if "partial" in qual.lower() else "Proof"
+        text = head + (" [" + qual + "]" if len(qual) >= 60 else "") + ": " + note
+        note = ""
+    elif len(text) < 60:
         # the builder put the level word in level_text and the description in level_note
         word = text.lower()
         head = "Proof (partial)" if "partial" in word else "Proof"
